@@ -5,7 +5,11 @@
 //!     `script` on one thread: item `h:open:i` = `by_index(i)` on clone `h`, `h:openraw:i` = `by_index_raw(i)`,
 //!     `h:read:n` = read up to `n` bytes of the file clone `h` has open, `h:ds` = `data_start()`,
 //!     `h:name` = name/size/crc/header_start of the open file, `h:close` = drop the file,
-//!     `h:len` = `archive.len()`.  Response: `opens:<number of successful opens>` then the observation of every call, `|`-separated.
+//!     `h:len` = `archive.len()`; `h:opendec:i:<pw hex>` = `by_index_decrypt(i, pw)`, `h:byname:<name hex>` = `by_name`,
+//!     `h:bynamedec:<name hex>:<pw hex>` = `by_name_decrypt` (observations `ok` / `invalidpw` / error class).
+//!     `keys=<entry>:<pw hex>:<content hex>,…` (optional) is given data for the MODEL only: what the harness's own
+//!     AE-x / PKWARE implementations (aes.rs, pkware.rs - no crate code) say an encrypted entry decodes to under a
+//!     password; the implementation side never looks at it.  Response: `opens:<number of successful opens>` then the observation of every call, `|`-separated.
 //! `clones.threads n=<threads> rounds=<r> seed=<s>`
 //!     multi-threaded stress: every round a fresh archive is opened, `n` threads clone it from a shared
 //!     reference, and each reads all entries in a random order with random chunk sizes and `yield_now`
@@ -26,14 +30,37 @@ pub struct Clones;
 type Arc_ = ZipArchive<Cursor<Vec<u8>>>;
 
 // ---- compile-time part of the property: the handle is Send and Sync whenever its reader is -------------
+// The property says "Send and Sync whenever its reader is": asserted PER TRAIT (a reader that is only Send
+// must give a Send archive, a reader that is only Sync a Sync archive), generically and on concrete readers
+// that have exactly one of the two.
 fn assert_send_sync<T: Send + Sync>() {}
+fn assert_send<T: Send>() {}
+fn assert_sync<T: Sync>() {}
 #[allow(dead_code)]
 fn archive_is_send_sync_for_every_such_reader<R: Send + Sync>() {
     assert_send_sync::<ZipArchive<R>>();
 }
+#[allow(dead_code)]
+fn archive_is_send_for_every_send_reader<R: Send>() {
+    assert_send::<ZipArchive<R>>();
+}
+#[allow(dead_code)]
+fn archive_is_sync_for_every_sync_reader<R: Sync>() {
+    assert_sync::<ZipArchive<R>>();
+}
+/// `Cell` is `Send` but not `Sync`.
+#[allow(dead_code)]
+struct SendOnlyReader(Cursor<Vec<u8>>, std::cell::Cell<u8>);
+/// A `MutexGuard` is `Sync` but not `Send`.
+#[allow(dead_code)]
+struct SyncOnlyReader(Cursor<Vec<u8>>, std::marker::PhantomData<std::sync::MutexGuard<'static, ()>>);
 const _: fn() = || {
     assert_send_sync::<Arc_>();
     assert_send_sync::<ZipArchive<std::fs::File>>();
+    assert_send::<SendOnlyReader>();
+    assert_sync::<SyncOnlyReader>();
+    assert_send::<ZipArchive<SendOnlyReader>>();
+    assert_sync::<ZipArchive<SyncOnlyReader>>();
 };
 
 // ---- one handle: an archive clone plus the file it currently has open -----------------------------------
@@ -52,20 +79,28 @@ impl Handle {
     fn new(a: Arc_) -> Handle {
         Handle { file: None, arch: Box::into_raw(Box::new(a)) }
     }
-    fn open(&mut self, i: usize, raw: bool) -> String {
+    fn open(&mut self, c: &Call) -> String {
         self.file = None; // the previous borrow ends here
         let p = self.arch;
         let r = catch(AssertUnwindSafe(move || {
             // SAFETY: no other reference to `*p` exists (file is None); the result is stored in `self.file`
             // and dropped before `*p` is touched again or freed.
             let a: &'static mut Arc_ = unsafe { &mut *p };
-            if raw { a.by_index_raw(i) } else { a.by_index(i) }
+            match c {
+                Call::OpenRaw(i) => a.by_index_raw(*i).map(Ok),
+                Call::Open(i) => a.by_index(*i).map(Ok),
+                Call::OpenDec(i, pw) => a.by_index_decrypt(*i, pw),
+                Call::ByName(n) => a.by_name(&String::from_utf8_lossy(n)).map(Ok),
+                Call::ByNameDec(n, pw) => a.by_name_decrypt(&String::from_utf8_lossy(n), pw),
+                _ => unreachable!(),
+            }
         }));
         match r {
-            Ok(Ok(f)) => {
+            Ok(Ok(Ok(f))) => {
                 self.file = Some(f);
                 "ok".into()
             }
+            Ok(Ok(Err(_))) => "invalidpw".into(),
             Ok(Err(e)) => zerr_class(&e),
             Err(_) => "panic".into(),
         }
@@ -113,8 +148,7 @@ impl Handle {
     }
     fn call(&mut self, c: &Call) -> String {
         match *c {
-            Call::Open(i) => self.open(i, false),
-            Call::OpenRaw(i) => self.open(i, true),
+            Call::Open(_) | Call::OpenRaw(_) | Call::OpenDec(..) | Call::ByName(_) | Call::ByNameDec(..) => self.open(c),
             Call::Read(n) => self.read(n),
             Call::Ds => self.ds(),
             Call::Name => self.name(),
@@ -132,14 +166,17 @@ impl Drop for Handle {
     }
 }
 
-#[derive(Clone, Copy, Debug, PartialEq)]
-enum Call { Open(usize), OpenRaw(usize), Read(usize), Ds, Name, Close, Len }
+#[derive(Clone, Debug, PartialEq)]
+enum Call { Open(usize), OpenRaw(usize), OpenDec(usize, Vec<u8>), ByName(Vec<u8>), ByNameDec(Vec<u8>, Vec<u8>), Read(usize), Ds, Name, Close, Len }
 
 impl Call {
     fn show(&self, h: usize) -> String {
         match *self {
             Call::Open(i) => format!("{h}:open:{i}"),
             Call::OpenRaw(i) => format!("{h}:openraw:{i}"),
+            Call::OpenDec(i, ref pw) => format!("{h}:opendec:{i}:{}", hex(pw)),
+            Call::ByName(ref n) => format!("{h}:byname:{}", hex(n)),
+            Call::ByNameDec(ref n, ref pw) => format!("{h}:bynamedec:{}:{}", hex(n), hex(pw)),
             Call::Read(n) => format!("{h}:read:{n}"),
             Call::Ds => format!("{h}:ds"),
             Call::Name => format!("{h}:name"),
@@ -158,6 +195,9 @@ fn parse_script(s: &str) -> Option<Vec<(usize, Call)>> {
         let c = match (p.get(1).copied()?, p.len()) {
             ("open", 3) => Call::Open(p[2].parse().ok()?),
             ("openraw", 3) => Call::OpenRaw(p[2].parse().ok()?),
+            ("opendec", 4) => Call::OpenDec(p[2].parse().ok()?, unhex(p[3])?),
+            ("byname", 3) => Call::ByName(unhex(p[2])?),
+            ("bynamedec", 4) => Call::ByNameDec(unhex(p[2])?, unhex(p[3])?),
             ("read", 3) => { let n: usize = p[2].parse().ok()?; if n > 1 << 20 { return None; } Call::Read(n) }
             ("ds", 2) => Call::Ds,
             ("name", 2) => Call::Name,
@@ -198,7 +238,15 @@ fn content(ai: usize, ei: usize, sp: &Spec) -> Vec<u8> {
     }
 }
 
-struct Built { zip: Vec<u8>, data: Vec<Vec<u8>> }
+struct Built {
+    zip: Vec<u8>,
+    data: Vec<Vec<u8>>,
+    /// (entry, password, decoded content) according to the harness's own crypto - given data for the model
+    keys: Vec<(usize, Vec<u8>, Vec<u8>)>,
+    /// candidate passwords of the archive (right ones, wrong ones, the empty one)
+    pws: Vec<Vec<u8>>,
+    names: Vec<Vec<u8>>,
+}
 
 /// `patch`: (entry, kind) with kind 0 = break the local header signature (open fails before the store),
 /// kind 1 = set the compression method to 1 ("shrunk", no decoder) in both headers (by_index fails after
@@ -233,7 +281,7 @@ fn build(ai: usize, specs: &[Spec], patch: &[(usize, u8)]) -> Built {
             }
         }
     }
-    Built { zip, data }
+    Built { zip, data, keys: vec![], pws: vec![], names: specs.iter().map(|s| s.name.as_bytes().to_vec()).collect() }
 }
 
 fn archives() -> Vec<Built> {
@@ -248,10 +296,248 @@ fn archives() -> Vec<Built> {
     ]
 }
 
+
+// ---- archives with encrypted entries ------------------------------------------------------------------------
+/// One entry given by its raw header fields and stored bytes (assembled without any crate code).
+struct RawEntry { name: Vec<u8>, flag: u16, method: u16, crc: u32, usize_: u32, extra: Vec<u8>, body: Vec<u8> }
+
+fn assemble(es: &[RawEntry]) -> Vec<u8> {
+    use super::aes::{central_header, local_header};
+    let (mut out, mut cd) = (vec![], vec![]);
+    for e in es {
+        let off = out.len() as u32;
+        out.extend(local_header(&e.name, e.flag, e.method, e.crc, e.body.len() as u32, e.usize_, &e.extra));
+        out.extend_from_slice(&e.body);
+        cd.extend(central_header(&e.name, e.flag, e.method, e.crc, e.body.len() as u32, e.usize_, &e.extra, off));
+    }
+    let cd_off = out.len() as u32;
+    out.extend_from_slice(&cd);
+    out.extend_from_slice(&0x06054b50u32.to_le_bytes());
+    out.extend_from_slice(&[0u8; 4]);
+    out.extend_from_slice(&(es.len() as u16).to_le_bytes());
+    out.extend_from_slice(&(es.len() as u16).to_le_bytes());
+    out.extend_from_slice(&(cd.len() as u32).to_le_bytes());
+    out.extend_from_slice(&cd_off.to_le_bytes());
+    out.extend_from_slice(&0u16.to_le_bytes());
+    out
+}
+
+fn raw_of(name: &[u8], f: super::aes::Fields) -> RawEntry {
+    RawEntry { name: name.to_vec(), flag: f.flag, method: f.cmethod, crc: f.crc, usize_: f.usize_, extra: f.extra, body: f.body }
+}
+
+fn plain_raw(name: &[u8], content: &[u8], deflate: bool) -> RawEntry {
+    let body = if deflate { super::aes::deflate_raw(content) } else { content.to_vec() };
+    RawEntry { name: name.to_vec(), flag: 0, method: if deflate { 8 } else { 0 }, crc: crc32fast::hash(content), usize_: content.len() as u32, extra: vec![], body }
+}
+
+fn aes_raw(name: &[u8], ver: u16, bits: usize, method: u16, pw: &[u8], plain: &[u8], salt_seed: u8) -> RawEntry {
+    let salt: Vec<u8> = (0..bits / 16).map(|j| salt_seed.wrapping_mul(31).wrapping_add(j as u8 * 7 + 1)).collect();
+    let enc = super::aes::encrypt(bits, method, pw, plain, &salt);
+    RawEntry { name: name.to_vec(), flag: 1, method: 99, crc: if ver == 1 { enc.crc } else { 0 }, usize_: plain.len() as u32,
+        extra: super::aes::aes_extra(ver, (bits / 64 - 1) as u8, method), body: enc.payload }
+}
+
+/// ZipCrypto entries are written by the crate's writer (that is what produces them in practice) and lifted out
+/// of its output by the independent central-directory walk of aes.rs.
+fn zipcrypto_raws(items: &[(&str, bool, &[u8], &[u8])]) -> Vec<RawEntry> {
+    use zip::unstable::write::FileOptionsExt;
+    let mut w = zip::ZipWriter::new(Cursor::new(Vec::new()));
+    for (name, deflate, pw, content) in items {
+        let o = zip::write::FileOptions::default()
+            .compression_method(if *deflate { CompressionMethod::Deflated } else { CompressionMethod::Stored })
+            .last_modified_time(zip::DateTime::default())
+            .with_deprecated_encryption(pw);
+        w.start_file(*name, o).unwrap();
+        w.write_all(content).unwrap();
+    }
+    let z = w.finish().unwrap().into_inner();
+    super::aes::fixture_entries(&z).into_iter().map(|(n, f)| raw_of(n.as_bytes(), f)).collect()
+}
+
+/// What an encrypted entry decodes to under `pw` according to the harness's own implementations
+/// (aes.rs: PBKDF2 / AES-CTR from the RustCrypto crates, pkware.rs: APPNOTE 6.1; flate2's raw inflate).
+/// `None`: the password is refused (AES verification value / ZipCrypto check byte) - or the decrypted stream
+/// does not inflate (callers must not use such a password).
+fn harness_unlock(f: &super::aes::Fields, pw: &[u8]) -> Option<Vec<u8>> {
+    let ex = &f.extra;
+    let mut o = 0usize;
+    let mut aes: Option<(usize, u16)> = None;
+    while o + 4 <= ex.len() {
+        let l = u16::from_le_bytes([ex[o + 2], ex[o + 3]]) as usize;
+        if ex[o] == 0x01 && ex[o + 1] == 0x99 && l == 7 && o + 11 <= ex.len() {
+            aes = Some((64 * (ex[o + 8] as usize + 1), u16::from_le_bytes([ex[o + 9], ex[o + 10]])));
+        }
+        o += 4 + l;
+    }
+    match aes {
+        Some((bits, inner)) => {
+            let dec = super::aes::tables2(bits, f.csize as u64, &f.body, Some(pw)).1?;
+            if inner == 8 { super::aes::inflate_raw(&dec) } else { Some(dec) }
+        }
+        None => {
+            if f.body.len() < 12 { return None; }
+            let d = crate::pkware::Keys::new(pw).decrypt(&f.body);
+            if d[11] != (f.crc >> 24) as u8 { return None; }
+            if f.cmethod == 8 { super::aes::inflate_raw(&d[12..]) } else { Some(d[12..].to_vec()) }
+        }
+    }
+}
+
+/// Builds the `keys` table for all (encrypted entry, candidate password) pairs; `right[i]` is the password entry
+/// `i` was encrypted with (`None` for plain entries) and `data[i]` its plaintext.
+fn finish_crypto(zip: Vec<u8>, data: Vec<Vec<u8>>, right: Vec<Option<Vec<u8>>>, mut pws: Vec<Vec<u8>>) -> Built {
+    let es = super::aes::fixture_entries(&zip);
+    // a wrong password that passes the ZipCrypto check byte of a stored entry (1 in 256): reads garbage, then
+    // "Invalid checksum" - a FAILING READ that must stay on the handle that asked for it
+    for (_, f) in es.iter() {
+        if f.flag & 1 == 1 && f.cmethod == 0 {
+            for n in 0..100000u32 {
+                let cand = format!("w{n}").into_bytes();
+                let hits_deflated = es.iter().any(|(_, g)| g.flag & 1 == 1 && g.cmethod == 8 && g.body.len() >= 12
+                    && crate::pkware::Keys::new(&cand).decrypt(&g.body[..12])[11] == (g.crc >> 24) as u8);
+                if harness_unlock(f, &cand).is_some() && !hits_deflated { pws.push(cand); break; }
+            }
+            break;
+        }
+    }
+    let mut keys = vec![];
+    for (i, (_, f)) in es.iter().enumerate() {
+        if f.flag & 1 == 0 { continue; }
+        for pw in &pws {
+            match harness_unlock(f, pw) {
+                Some(c) => {
+                    if Some(pw) == right[i].as_ref() { assert_eq!(c, data[i], "harness decryption of entry {i}"); }
+                    keys.push((i, pw.clone(), c));
+                }
+                None => {
+                    assert!(Some(pw) != right[i].as_ref(), "right password refused by the harness's own crypto");
+                    // refused: must be by the verifier / check byte, not by a failed inflate of a passing password
+                    if f.cmethod == 8 && f.body.len() >= 12 {
+                        let d = crate::pkware::Keys::new(pw).decrypt(&f.body);
+                        assert!(d[11] != (f.crc >> 24) as u8, "candidate password passes the check byte of a deflated ZipCrypto entry");
+                    }
+                }
+            }
+        }
+    }
+    let names = es.iter().map(|(n, _)| n.as_bytes().to_vec()).collect();
+    Built { zip, data, keys, pws, names }
+}
+
+fn flip_crc(mut e: RawEntry) -> RawEntry { e.crc ^= 0x0100_0001; e }
+
+/// Index 0: crate-written ZipCrypto + plain entries; 1: the crate's fixture tests/data/aes_archive.zip
+/// (WinZip-made, AE-2, password "helloworld"); 2: harness-assembled mix of plain / AE-1 / AE-2 / ZipCrypto entries
+/// with a duplicate name and three entries whose declared CRC-32 is wrong (plain stored, plain deflated, AE-1).
+fn crypto_archives() -> Vec<Built> {
+    let b = |s: &str| s.as_bytes().to_vec();
+    let mut out = vec![];
+    // 0
+    {
+        let c: Vec<Vec<u8>> = vec![b("plain entry"), (0..16u8).map(|j| j * 7 + 3).collect(), b("AAAABBBBAAAABBBBAAAABBBBAAAABBBBCCCC"), b("second key")];
+        let zc = zipcrypto_raws(&[("zs", false, b"pw1", &c[1]), ("zd", true, b"pwd", &c[2]), ("z2", false, b"other", &c[3])]);
+        let mut es = vec![plain_raw(b"plain", &c[0], false)];
+        es.extend(zc);
+        out.push(finish_crypto(assemble(&es), c, vec![None, Some(b("pw1")), Some(b("pwd")), Some(b("other"))], vec![b("pw1"), b("pwd"), b("other"), b("nope"), vec![]]));
+    }
+    // 1
+    {
+        let path = std::path::Path::new(env!("CARGO_MANIFEST_DIR")).join("..").join("..").join("repo/tests/data/aes_archive.zip");
+        let zip = std::env::var("VERIF_REPO").ok().map(|r| std::path::Path::new(&r).join("tests/data/aes_archive.zip"))
+            .and_then(|p| std::fs::read(p).ok())
+            .or_else(|| std::fs::read("/repo/tests/data/aes_archive.zip").ok())
+            .or_else(|| std::fs::read(&path).ok());
+        if let Some(zip) = zip {
+            let es = super::aes::fixture_entries(&zip);
+            let data: Vec<Vec<u8>> = es.iter().map(|(_, f)| harness_unlock(f, b"helloworld").expect("fixture password")).collect();
+            let right = es.iter().map(|_| Some(b("helloworld"))).collect();
+            out.push(finish_crypto(zip, data, right, vec![b("helloworld"), b("helloworlD"), vec![], b("pw1")]));
+        }
+    }
+    // 2
+    {
+        let c: Vec<Vec<u8>> = vec![b("p0"), (0..40u8).map(|j| j ^ 0x5a).collect(), b("xyzxyzxyzxyzxyzxyzxyzxyzxyz-inner-deflate"), b("dup"), b("zipcrypto!"), b("bad crc stored"), b("bad crc bad crc bad crc bad crc"), b("bad crc in AE-1")];
+        let zc = zipcrypto_raws(&[("zc", false, b"s3cret", &c[4])]);
+        let mut es = vec![
+            plain_raw(b"p", &c[0], false),
+            aes_raw(b"a", 2, 256, 0, b"s3cret", &c[1], 1),
+            aes_raw(b"b", 1, 128, 8, b"s3cret", &c[2], 2),
+            aes_raw(b"a", 2, 192, 0, b"other!", &c[3], 3),
+        ];
+        es.extend(zc);
+        es.push(flip_crc(plain_raw(b"cs", &c[5], false)));
+        es.push(flip_crc(plain_raw(b"cd", &c[6], true)));
+        es.push(flip_crc(aes_raw(b"ca", 1, 128, 0, b"s3cret", &c[7], 4)));
+        let right = vec![None, Some(b("s3cret")), Some(b("s3cret")), Some(b("other!")), Some(b("s3cret")), None, None, Some(b("s3cret"))];
+        out.push(finish_crypto(assemble(&es), c, right, vec![b("s3cret"), b("other!"), b("S3cret"), vec![]]));
+    }
+    out
+}
+
+/// Template scripts over an archive with encrypted entries: `e` an encrypted entry with password `right`, `e2`
+/// another one with a different password (or the same entry), `plain` a plain entry, `bad` an open whose reads fail.
+fn crypto_templates(b: &Built) -> Vec<Vec<Call>> {
+    let enc: Vec<usize> = { let mut v: Vec<usize> = b.keys.iter().map(|k| k.0).collect(); v.dedup(); v };
+    let right_of = |i: usize| b.keys.iter().find(|k| k.0 == i && k.2 == b.data[i]).map(|k| k.1.clone()).unwrap_or_default();
+    let e = enc[0];
+    let e2 = *enc.iter().find(|&&i| right_of(i) != right_of(e)).unwrap_or(&enc[enc.len() - 1]);
+    let right = right_of(e);
+    let wrong = b.pws.iter().find(|p| !b.keys.iter().any(|k| k.0 == e && &k.1 == *p) && !p.is_empty()).cloned().unwrap_or_else(|| b"zzz".to_vec());
+    let plain = (0..b.data.len()).find(|i| !enc.contains(i)).unwrap_or(0);
+    // a failing read: an accepted password whose content differs from the plaintext (ZipCrypto check-byte pass),
+    // else an entry with a wrong declared CRC (archive 2), else the wrong password again
+    let bad: Call = match b.keys.iter().find(|k| k.2 != b.data[k.0]) {
+        Some(k) => Call::OpenDec(k.0, k.1.clone()),
+        None => if b.data.len() > 7 { Call::OpenDec(7, right_of(7)) } else { Call::OpenDec(e, wrong.clone()) },
+    };
+    vec![
+        vec![Call::OpenDec(e, right.clone()), Call::Read(5), Call::Read(100)],
+        vec![Call::OpenDec(e, wrong.clone()), Call::Ds, Call::Read(3)],
+        vec![Call::OpenDec(e, vec![]), Call::OpenDec(e, right.clone()), Call::Ds],
+        vec![Call::ByNameDec(b.names[e].clone(), wrong.clone()), Call::ByNameDec(b.names[e].clone(), right.clone()), Call::Read(100)],
+        vec![Call::Open(e), Call::ByName(b.names[plain].clone()), Call::Read(100)],
+        vec![Call::OpenDec(plain, wrong.clone()), Call::Read(100), Call::Name],
+        vec![Call::OpenDec(e2, right.clone()), Call::OpenDec(e2, right_of(e2)), Call::Read(100)],
+        vec![bad, Call::Read(100), Call::Read(1)],
+    ]
+}
+
+fn random_crypto_script(r: &mut crate::prng::Rng, b: &Built) -> Vec<Call> {
+    let n = b.data.len();
+    let len = r.range(1, 4) as usize;
+    let mut v = vec![];
+    for j in 0..len {
+        let idx = |r: &mut crate::prng::Rng| if r.chance(1, 12) { n + r.below(2) as usize } else { r.below(n as u64) as usize };
+        let name = |r: &mut crate::prng::Rng| if r.chance(1, 10) { b"absent".to_vec() } else { r.pick(&b.names).clone() };
+        let c = if j == 0 && r.chance(4, 5) || r.chance(1, 3) {
+            match r.below(8) {
+                0 => Call::Open(idx(r)),
+                1 => Call::OpenRaw(idx(r)),
+                2 => Call::ByName(name(r)),
+                3 | 4 => Call::ByNameDec(name(r), r.pick(&b.pws).clone()),
+                _ => Call::OpenDec(idx(r), r.pick(&b.pws).clone()),
+            }
+        } else {
+            match r.below(10) {
+                0..=4 => Call::Read(*r.pick(&[0usize, 1, 2, 3, 5, 8, 13, 100])),
+                5..=6 => Call::Ds,
+                7 => Call::Name,
+                8 => Call::Close,
+                _ => Call::Len,
+            }
+        };
+        v.push(c);
+    }
+    v
+}
+
 fn line(b: &Built, k: usize, calls: &[(usize, Call)]) -> String {
     let data: Vec<String> = b.data.iter().map(|d| hex(d)).collect();
     let script: Vec<String> = calls.iter().map(|(h, c)| c.show(*h)).collect();
-    format!("clones.run k={k} zip={} data={} script={}", hex(&b.zip), data.join(","),
+    let keys: Vec<String> = b.keys.iter().map(|(i, p, c)| format!("{i}:{}:{}", hex(p), hex(c))).collect();
+    format!("clones.run k={k} zip={} data={}{} script={}", hex(&b.zip), data.join(","),
+        if keys.is_empty() { String::new() } else { format!(" keys={}", keys.join(",")) },
         if script.is_empty() { "-".to_string() } else { script.join(",") })
 }
 
@@ -269,7 +555,7 @@ fn merges(counts: &mut Vec<usize>, cur: &mut Vec<usize>, out: &mut Vec<Vec<usize
 
 fn weave(scripts: &[Vec<Call>], order: &[usize]) -> Vec<(usize, Call)> {
     let mut ix = vec![0usize; scripts.len()];
-    order.iter().map(|&h| { let c = scripts[h][ix[h]]; ix[h] += 1; (h, c) }).collect()
+    order.iter().map(|&h| { let c = scripts[h][ix[h]].clone(); ix[h] += 1; (h, c) }).collect()
 }
 
 // ---- threads ---------------------------------------------------------------------------------------------
@@ -333,8 +619,56 @@ fn threads(n: usize, rounds: usize, seed: u64) -> String {
             hs.into_iter().map(|h| h.join().unwrap_or_else(|_| Err("a thread panicked".into()))).collect()
         });
         for x in res { if let Err(e) = x { return e; } }
+        // every round: encrypted entries (AE-1, AE-2, ZipCrypto) - threads present right, wrong and empty
+        // passwords concurrently; each must get what the password gets on a handle used alone
+        if let Err(e) = threads_crypto(n, round, seed) { return e; }
     }
     "ok".into()
+}
+
+fn threads_crypto(n: usize, round: usize, seed: u64) -> Result<(), String> {
+    use std::sync::OnceLock;
+    static ARCH: OnceLock<Built> = OnceLock::new();
+    let b = ARCH.get_or_init(|| crypto_archives().pop().unwrap());
+    let mut encs: Vec<usize> = b.keys.iter().map(|k| k.0).collect();
+    encs.dedup();
+    let encs = &encs;
+    let fresh = ZipArchive::new(Cursor::new(b.zip.clone())).map_err(|e| format!("crypto archive does not open: {e:?}"))?;
+    let shared = &fresh;
+    let barrier = std::sync::Barrier::new(n);
+    let barrier = &barrier;
+    let res: Vec<Result<(), String>> = std::thread::scope(|sc| {
+        let hs: Vec<_> = (0..n).map(|t| sc.spawn(move || -> Result<(), String> {
+            let mut r = crate::prng::Rng::new(seed, "clones.threads.crypto", (round * 1000 + t) as u64);
+            let mut mine = shared.clone();
+            barrier.wait();
+            for _ in 0..3 {
+                let i = *r.pick(encs);
+                let pw = r.pick(&b.pws).clone();
+                let want = b.keys.iter().find(|k| k.0 == i && k.1 == pw).map(|k| &k.2);
+                if r.chance(1, 3) { std::thread::yield_now(); }
+                match (mine.by_index_decrypt(i, &pw), want) {
+                    (Ok(Err(_)), None) => {}
+                    (Ok(Ok(mut f)), Some(w)) => {
+                        let mut v = vec![];
+                        let res = f.read_to_end(&mut v);
+                        let intact = w == &b.data[i] && ![5usize, 6, 7].contains(&i);
+                        if intact && (res.is_err() || &v != w) {
+                            return Err(format!("thread {t} round {round}: entry {i} with an accepted password reads {res:?} / {} bytes, solo content has {}", v.len(), w.len()));
+                        }
+                        if !intact && res.is_ok() { return Err(format!("thread {t} round {round}: entry {i}: a read that fails alone succeeded")); }
+                    }
+                    (Ok(Ok(_)), None) => return Err(format!("thread {t} round {round}: entry {i} opened with a password that is refused on a handle used alone")),
+                    (Ok(Err(_)), Some(_)) => return Err(format!("thread {t} round {round}: entry {i} refused a password that is accepted on a handle used alone")),
+                    (Err(e), _) => return Err(format!("thread {t} round {round}: by_index_decrypt({i}) failed: {e:?}")),
+                }
+            }
+            Ok(())
+        })).collect();
+        hs.into_iter().map(|h| h.join().unwrap_or_else(|_| Err("a thread panicked".into()))).collect()
+    });
+    for x in res { x?; }
+    Ok(())
 }
 
 // ---- stream ----------------------------------------------------------------------------------------------
@@ -370,7 +704,14 @@ impl Stream for Clones {
                   call-level interleavings of 2 handles x 8x8 template scripts of 4 calls (64 x 70) and of 3 handles x \
                   4x4x4 template scripts of 2 calls (64 x 90) (quick: each script tuple on one of the archives = 10240 lines; thorough: on all 6 archives = 61440, plus 3 handles x scripts of 3,3,2 calls: 16 x 560), random part = \
                   random archive, 2-3 handles, random scripts of 1-4 calls (indices incl. out-of-range), random merge \
-                  order; clones.threads: fresh archive per round, n threads clone it through a shared reference and read \
+                  order; ENCRYPTED part (run.crypto*): 3 archives - crate-written ZipCrypto stored/deflated + plain; the crate's \
+                  fixture tests/data/aes_archive.zip (WinZip AE-2, 128/192/256, deflated and stored); harness-assembled mix \
+                  (AE-1 deflated, AE-2 stored x2 with a DUPLICATE name, ZipCrypto, plain, and three entries with a wrong declared \
+                  CRC-32: stored, deflated, AE-1) - calls by_index_decrypt / by_name / by_name_decrypt with right, wrong, empty \
+                  and other-entry passwords plus a wrong password that passes the ZipCrypto check byte (reads garbage, then fails); \
+                  all interleavings of 2 handles x 8x8 template scripts of 3 calls (64 x 20, quick: one archive per pair; \
+                  thorough: all), the pair [clone A right password | clone B wrong password] in both orders for every encrypted \
+                  entry x every candidate password, and random scripts; clones.threads: fresh archive per round, n threads clone it through a shared reference and read \
                   all entries in random order/chunks with yields. distinct = distinct op lines; non-trivial = at least \
                   one successful open in the response".into();
         g.exhaustive = true; // the template-script interleavings are enumerated completely in both tiers
@@ -440,6 +781,48 @@ impl Stream for Clones {
             }
             g.push("run.random", line(ar, k, &weave(&scripts, &order)));
         }
+        // ---- encrypted entries: right / wrong / empty passwords on AES and ZipCrypto entries, by index and by name,
+        // password on a plain entry, reads that fail (check-byte collision, wrong declared CRC) ----
+        let carchs = crypto_archives();
+        let mut m33 = vec![]; merges(&mut vec![3, 3], &mut vec![], &mut m33);
+        let mut pairno = 0usize;
+        for a in 0..8 { for b in 0..8 {
+            pairno += 1;
+            for (ai, ar) in carchs.iter().enumerate() {
+                if !thorough && ai != pairno % carchs.len() { continue; }
+                let t = crypto_templates(ar);
+                let scripts = vec![t[a].clone(), t[b].clone()];
+                for o in &m33 {
+                    g.push("run.cryptoexh2", line(ar, 2, &weave(&scripts, o)));
+                }
+            }
+        }}
+        if tier != "quickx" {
+            // the decisive shape, on every archive and every encrypted entry: one clone validates the right
+            // password, another one then presents a wrong / empty one (and the other way round)
+            for ar in &carchs {
+                let mut encs: Vec<usize> = ar.keys.iter().map(|k| k.0).collect(); encs.dedup();
+                for &e in &encs {
+                    let right = ar.keys.iter().find(|k| k.0 == e && k.2 == ar.data[e]).map(|k| k.1.clone()).unwrap_or_default();
+                    for w in ar.pws.iter().filter(|p| **p != right) {
+                        g.push("run.cryptopair", line(ar, 2, &[(0, Call::OpenDec(e, right.clone())), (1, Call::OpenDec(e, w.clone())), (1, Call::Read(100)), (0, Call::Read(100))]));
+                        g.push("run.cryptopair", line(ar, 2, &[(1, Call::OpenDec(e, w.clone())), (0, Call::OpenDec(e, right.clone())), (1, Call::OpenDec(e, w.clone())), (0, Call::Read(100))]));
+                    }
+                }
+            }
+        }
+        for _ in 0..(if thorough { 40000 } else { 1500 }) {
+            let ar = r.pick(&carchs);
+            let k = r.range(2, 3) as usize;
+            let scripts: Vec<Vec<Call>> = (0..k).map(|_| random_crypto_script(&mut r, ar)).collect();
+            let mut left: Vec<usize> = scripts.iter().map(|s| s.len()).collect();
+            let mut order = vec![];
+            while left.iter().any(|&c| c > 0) {
+                let h = r.below(k as u64) as usize;
+                if left[h] > 0 { left[h] -= 1; order.push(h); }
+            }
+            g.push("run.cryptorandom", line(ar, k, &weave(&scripts, &order)));
+        }
         // degenerate shapes
         g.push("run.edge", line(&archs[0], 2, &[]));
         g.push("run.edge", line(&archs[0], 1, &[(0, Call::Open(0)), (0, Call::Read(100)), (0, Call::Read(1))]));
@@ -499,8 +882,13 @@ impl Stream for Clones {
                 }
                 if obs.iter().any(|o| *o == "panic") { f.push(OracleFailure { what: "panic in an archive call".into() }); }
                 let data: Vec<Vec<u8>> = a.get("data").map(|d| d.split(',').filter_map(unhex).collect()).unwrap_or_default();
+                let keys: Vec<(usize, Vec<u8>, Vec<u8>)> = a.get("keys").filter(|k| *k != "-").map(|d| d.split(',').filter_map(|it| {
+                    let p: Vec<&str> = it.split(':').collect();
+                    if p.len() != 3 { return None; }
+                    Some((p[0].parse().ok()?, unhex(p[1])?, unhex(p[2])?))
+                }).collect()).unwrap_or_default();
                 for h in 0..k {
-                    let mine: Vec<(usize, Call)> = calls.iter().filter(|(x, _)| *x == h).map(|(_, c)| (0usize, *c)).collect();
+                    let mine: Vec<(usize, Call)> = calls.iter().filter(|(x, _)| *x == h).map(|(_, c)| (0usize, c.clone())).collect();
                     let seen: Vec<&str> = calls.iter().zip(obs.iter()).filter(|((x, _), _)| *x == h).map(|(_, o)| *o).collect();
                     let alone = match exec(&zip, 1, &mine) { Some(o) => o, None => continue };
                     if alone.iter().map(|s| s.as_str()).collect::<Vec<_>>() != seen {
@@ -508,17 +896,31 @@ impl Stream for Clones {
                             seen.join("|"), alone.join("|")) });
                     }
                     // decoded reads return the content that was written (a complete read of entry i = data[i])
-                    let mut open: Option<(usize, bool, Vec<u8>)> = None;
+                    // (for a decrypting open: the content the harness's own crypto gives for that password)
+                    let mut open: Option<(usize, bool, Vec<u8>, Option<Vec<u8>>)> = None;
                     for ((_, c), o) in mine.iter().zip(seen.iter()) {
                         match c {
                             Call::Open(i) | Call::OpenRaw(i) => {
-                                open = if *o == "ok" { Some((*i, matches!(c, Call::OpenRaw(_)), vec![])) } else { None };
+                                open = if *o == "ok" { Some((*i, matches!(c, Call::OpenRaw(_)), vec![], None)) } else { None };
                             }
+                            Call::OpenDec(i, pw) => {
+                                let exp = keys.iter().find(|k| k.0 == *i && &k.1 == pw).map(|k| k.2.clone());
+                                let encrypted = keys.iter().any(|k| k.0 == *i);
+                                if *o == "ok" && encrypted && exp.is_none() {
+                                    f.push(OracleFailure { what: format!("handle {h}: entry {i} opened with a password the independent implementation refuses") });
+                                }
+                                if *o == "invalidpw" && exp.is_some() {
+                                    f.push(OracleFailure { what: format!("handle {h}: entry {i} refuses a password the independent implementation accepts") });
+                                }
+                                open = if *o == "ok" { Some((*i, false, vec![], exp)) } else { None };
+                            }
+                            Call::ByName(_) | Call::ByNameDec(..) => open = None,
                             Call::Close => open = None,
                             Call::Read(_) => {
-                                if let (Some((i, raw, acc)), Some(hx)) = (open.as_mut(), o.strip_prefix("b:")) {
+                                if let (Some((i, raw, acc, exp)), Some(hx)) = (open.as_mut(), o.strip_prefix("b:")) {
                                     acc.extend(unhex(hx).unwrap_or_default());
-                                    if !*raw && *i < data.len() && !data[*i].starts_with(acc) {
+                                    let want = exp.as_ref().or(data.get(*i));
+                                    if !*raw && want.map_or(false, |w| !w.starts_with(acc)) {
                                         f.push(OracleFailure { what: format!("handle {h}: bytes read from entry {i} are not a prefix of its content") });
                                     }
                                 }
